@@ -8,6 +8,7 @@ CFG = {'level': 'exploration',
                'and CheckRecord/CheckTree accept/reject must equal the RFC 9162 algorithms on every mutated tuple (proof hashes, length, order, '
                'index, sizes, leaf, both roots, out-of-range). Held-on-observed.',
  'level_note': 'Trusts crypto/sha256 and the literal transcription of RFC 6962 §2.1 / RFC 9162 §2.1.3.2, §2.1.4.2 in ref/refmerkle.',
+ 'gomaxprocs': 4,
  'nbatch': {'quick': 16, 'thorough': 64},
  'timeout': {'quick': 150, 'thorough': 3000},
  'hang_replay_s': 60,
